@@ -67,6 +67,9 @@ func init() {
 			if e.Lbl.Cmd.C != "IDLE" {
 				return false
 			}
+			if e.Lbl.Cmd.A == "auth" {
+				return true // silence inside a SASL exchange: few edges, all of them
+			}
 			return tier == "thorough" || e.ID%4 == 1 // quick: a quarter of them
 		})
 		st.Covered += ist.Covered
